@@ -634,4 +634,111 @@ theorem parseChem_render {ts : List Tok} (h : ∀ t ∈ ts, WFTok t) :
   simp only [parseChem, bne_self_eq_false, Bool.false_eq_true, if_false, h1, h2, foldl_addAll_groups,
     groups_flatten, List.nil_append]
 
+/-! ## the writer -/
+
+/-- zero-count entries are not written -/
+def dropZeros (c : Comp) : Comp := c.filter (fun kv => !kv.2.isZero)
+
+/-- the order in which `write_chem_formula` visits the entries -/
+def hillSort (elems : List Elem) (hill : Bool) (c : Comp) : Comp :=
+  if hill then sortBy (fun kv => hillIndex elems kv.1) c else c
+
+theorem insertBy_perm {α : Type} (key : α → Nat) (x : α) (l : List α) : (insertBy key x l).Perm (x :: l) := by
+  induction l with
+  | nil => exact List.Perm.refl _
+  | cons y l ih =>
+    by_cases h : key x < key y
+    · simp [insertBy, h]
+    · simp only [insertBy, h, if_false]
+      exact (List.Perm.cons y ih).trans (List.Perm.swap x y l)
+
+theorem foldl_insertBy_perm {α : Type} (key : α → Nat) (l acc : List α) :
+    (l.foldl (fun acc x => insertBy key x acc) acc).Perm (l ++ acc) := by
+  induction l generalizing acc with
+  | nil => exact List.Perm.refl _
+  | cons x l ih =>
+    simp only [List.foldl_cons, List.cons_append]
+    exact (ih _).trans ((List.Perm.append_left l (insertBy_perm key x acc)).trans List.perm_middle)
+
+theorem sortBy_perm {α : Type} (key : α → Nat) (l : List α) : (sortBy key l).Perm l := by
+  simpa [sortBy] using foldl_insertBy_perm key l []
+
+theorem hillSort_perm (elems : List Elem) (hill : Bool) (c : Comp) : (hillSort elems hill c).Perm c := by
+  unfold hillSort
+  split
+  · exact sortBy_perm _ _
+  · exact List.Perm.refl _
+
+theorem flatten_write (l : Comp) (h : ∀ kv ∈ l, kv.1 ≠ []) :
+    (l.map (fun kv =>
+      if kv.2.isZero || kv.1 == [] then []
+      else if isIsoKey kv.1 then [91] ++ kv.1 ++ kv.2.show ++ [93]
+      else kv.1 ++ kv.2.show)).flatten = render (dropZeros l) := by
+  induction l with
+  | nil => rfl
+  | cons a l ih =>
+    have ha : (a.1 == []) = false := by simpa using h a (by simp)
+    have := ih (fun kv hkv => h kv (by simp [hkv]))
+    by_cases hz : a.2.isZero = true
+    · simp only [List.map_cons, List.flatten_cons, this, hz, Bool.true_or, if_true, dropZeros, List.filter_cons,
+        Bool.not_true, Bool.false_eq_true, if_false, List.nil_append]
+    · simp only [Bool.not_eq_true] at hz
+      simp only [List.map_cons, List.flatten_cons, this, hz, ha, Bool.or_false, Bool.false_eq_true, if_false,
+        dropZeros, List.filter_cons, Bool.not_false, if_true, render_cons, tokStr]
+
+theorem writeChem_nosep (elems : List Elem) (c : Comp) (hill : Bool) (h : ∀ kv ∈ c, kv.1 ≠ []) :
+    writeChem elems c [] hill = render (dropZeros (hillSort elems hill c)) := by
+  have h' : ∀ kv ∈ hillSort elems hill c, kv.1 ≠ [] :=
+    fun kv hkv => h kv ((hillSort_perm elems hill c).mem_iff.1 hkv)
+  have := flatten_write _ h'
+  simpa [writeChem, hillSort] using this
+
+theorem writeChem_sep (elems : List Elem) (c : Comp) (sep : Str) (hill : Bool) (h : sep ≠ []) :
+    writeChem elems c sep hill =
+      intercalate sep ((dropZeros (hillSort elems hill c)).map (fun kv => kv.1 ++ sep ++ kv.2.show)) := by
+  simp [writeChem, hillSort, dropZeros, h]
+
+/-- well-formed composition: pairwise distinct keys of the domain, printable counts -/
+def WFComp (c : Comp) : Prop := (keys c).Nodup ∧ ∀ kv ∈ c, WFTok kv
+
+theorem WFComp.perm {c c' : Comp} (h : WFComp c) (p : c'.Perm c) : WFComp c' :=
+  ⟨(p.map _).nodup_iff.2 h.1, fun kv hkv => h.2 kv (p.mem_iff.1 hkv)⟩
+
+theorem WFComp.dropZeros {c : Comp} (h : WFComp c) : WFComp (dropZeros c) :=
+  ⟨h.1.sublist (List.Sublist.map _ List.filter_sublist), fun kv hkv => h.2 kv (List.mem_filter.1 hkv).1⟩
+
+theorem wfTok_key_ne {t : Tok} (h : WFTok t) : t.1 ≠ [] := by
+  rcases h.1 with h | h
+  · exact plainKey_ne h
+  · exact isoKey_ne h
+
+theorem addTo_new {d : Comp} {k : Str} (h : k ∉ keys d) (v : Num) : addTo d k v = d ++ [(k, v)] := by
+  induction d with
+  | nil => simp [addTo, Num.zero_add]
+  | cons a d ih =>
+    simp only [keys, List.map_cons, List.mem_cons, not_or] at h
+    have h1 : ¬ a.1 = k := fun e => h.1 e.symm
+    simp [addTo, h1, ih h.2]
+
+theorem addAll_distinct {d l : Comp} (hl : (keys l).Nodup) (hd : ∀ k ∈ keys l, k ∉ keys d) :
+    addAll d l = d ++ l := by
+  induction l generalizing d with
+  | nil => simp [addAll]
+  | cons t l ih =>
+    simp only [keys, List.map_cons, List.nodup_cons] at hl
+    rw [addAll_cons, addTo_new (hd t.1 (by simp [keys])), ih hl.2]
+    · simp
+    · intro k hk hk'
+      simp only [keys, List.map_append, List.map_cons, List.map_nil, List.mem_append, List.mem_singleton] at hk'
+      rcases hk' with hk' | rfl
+      · exact hd k (by simp [keys] at hk ⊢; exact .inr hk) hk'
+      · exact hl.1 hk
+
+theorem parseChem_write {c : Comp} (elems : List Elem) (hill : Bool) (h : WFComp c) :
+    parseChem (writeChem elems c [] hill) [] = .ok (dropZeros (hillSort elems hill c)) := by
+  have hw : WFComp (dropZeros (hillSort elems hill c)) := (h.perm (hillSort_perm elems hill c)).dropZeros
+  rw [writeChem_nosep elems c hill (fun kv hkv => wfTok_key_ne (h.2 kv hkv)), parseChem_render hw.2,
+    addAll_distinct hw.1 (by simp [keys])]
+  rfl
+
 end Formula
